@@ -229,6 +229,16 @@ func (c *Ctx) c01Strides() {
 			}
 		}
 		r.Check(good, "R4", key, c.fpos(f), "the running offset / total advances by (*AVP).Len() of each element", "the encoder does not advance by (*AVP).Len() per AVP: AVPs are written at offsets that differ from what the decoder walks")
+		if spec.name == "Len" {
+			// … and nothing else is ever returned: every return value is the constant start plus that sum over
+			// the receiver's current list (a remembered total, or the sum less some term, is not)
+			want := int64(0)
+			if spec.typ == "Message" {
+				want = 20
+			}
+			ok, why := c.lenIsSum(f, spec.typ, want)
+			r.Check(ok, "R4", fname(f)+":every-return-is-the-sum", c.fpos(f), fmt.Sprintf("every return of %s.Len() is %d + Σ (*AVP).Len() over the receiver's current AVP list", spec.typ, want), fmt.Sprintf("%s.Len() can return something other than %d + Σ (*AVP).Len() of its current members (%s): the length written and the buffer sized from it no longer match what the walk serialises", spec.typ, want, why))
+		}
 	}
 	// per-type alignment
 	typs, _ := c.datatypeImplementors()
@@ -702,6 +712,29 @@ func (c *Ctx) lenSum(v ssa.Value, depth int) (int64, ssa.Value, bool) {
 		}
 	}
 	return 0, nil, false
+}
+
+// lenIsSum: every value f (a Len method of typ, whose AVP list is the field "AVP") can return is
+// want + Σ (*AVP).Len() over the receiver's own list.
+func (c *Ctx) lenIsSum(f *ssa.Function, typ string, want int64) (bool, string) {
+	rvs := flow.ReturnValues(f, 0)
+	if len(rvs) == 0 {
+		return false, "no return value found"
+	}
+	for _, rv := range rvs {
+		k, l, ok := c.lenSum(rv, 0)
+		if !ok {
+			return false, "a return value is not a running total of (*AVP).Len() calls: " + rv.String()
+		}
+		if k != want {
+			return false, fmt.Sprintf("the total starts at %d", k)
+		}
+		tn, fld, base, okf := flow.FieldOf(flow.Peel(l))
+		if !okf || tn != typ || fld != "AVP" || flow.Peel(base) != ssa.Value(f.Params[0]) {
+			return false, "the list summed is not the receiver's AVP field"
+		}
+	}
+	return true, ""
 }
 
 // padOfSameLen: Len() returns h(recv) for a method h, and Padding() returns P(h(recv)) where P is, for all
